@@ -315,6 +315,18 @@ theorem callOk (tid : Nat) (op : NOp) : CallOk tid op := by
     intro st s1 hm _
     have : phRun .idle (preN st tid (.vGetV d s k)) = some .idle := phRun_getEmb _ _ _ _ _ _ _
     rw [this] at hm; cases hm
+  | aPushV d s =>
+    refine ⟨?_, ?_, ?_⟩
+    · intro st; simp only [preN]; split
+      · left; rfl
+      · right; rfl
+    · intro s1 hw; exact phRun_appendN_idle _ _ _ _ _ _ _ hw
+    · intro st s1 _ hw; exact phRun_appendN_write _ _ _ _ _ _ _ hw
+  | aGetV d s k =>
+    refine ⟨fun st => Or.inl (phRun_getEmb _ _ _ _ _ _ _), fun _ _ => rfl, ?_⟩
+    intro st s1 hm _
+    have : phRun .idle (preN st tid (.aGetV d s k)) = some .idle := phRun_getEmb _ _ _ _ _ _ _
+    rw [this] at hm; cases hm
   | xGetC d s k =>
     refine ⟨fun st => Or.inl (phRun_getEmb _ _ _ _ _ _ _), fun _ _ => rfl, ?_⟩
     intro st s1 hm _
@@ -327,6 +339,18 @@ theorem callOk (tid : Nat) (op : NOp) : CallOk tid op := by
       · intro s1 hw; exact phRun_appendN_idle _ _ _ _ _ _ _ hw
       · intro st s1 _ hw; exact phRun_appendN_write _ _ _ _ _ _ _ hw
     case vSetList d x =>
+      refine ⟨fun st => Or.inr rfl, ?_, ?_⟩
+      · intro s1 hw; simp only [postN, hw, Bool.false_eq_true, if_false]; rfl
+      · intro st s1 _ hw
+        simp only [postN, hw, if_true, List.cons_append, List.nil_append, phRun, phStep]
+        split
+        · exact phRun_dropEmb _ _ _ _
+        · rfl
+    case vPushA d x =>
+      refine ⟨fun st => Or.inr rfl, ?_, ?_⟩
+      · intro s1 hw; exact phRun_appendN_idle _ _ _ _ _ _ _ hw
+      · intro st s1 _ hw; exact phRun_appendN_write _ _ _ _ _ _ _ hw
+    case vSetArr d x =>
       refine ⟨fun st => Or.inr rfl, ?_, ?_⟩
       · intro s1 hw; simp only [postN, hw, Bool.false_eq_true, if_false]; rfl
       · intro st s1 _ hw
